@@ -299,6 +299,7 @@ where
 fn run_dual<D, F>(op: &str, aux: &[&str], a: &[D]) -> Vec<String>
 where
     D: DualNum<F> + Probe<F = F> + std::fmt::Display,
+    <D as DualNum<F>>::Inner: From<F>,
     F: FBits,
 {
     let mut out = vec![];
@@ -403,6 +404,7 @@ where
             z.wr(o)
         }
         "from_F" => D::from(fa(0)).wr(o),
+        "from_inner_F" => D::from_inner(<<D as DualNum<F>>::Inner as From<F>>::from(fa(0))).wr(o),
         "sum" => a.iter().cloned().sum::<D>().wr(o),
         "product" => a.iter().cloned().product::<D>().wr(o),
         "from_i32" => match D::from_i32(ia(0)) {
@@ -478,6 +480,7 @@ where
 fn case_dual<D, F>(op: &str, aux: &[&str], operands: &[Vec<&str>]) -> Vec<String>
 where
     D: DualNum<F> + Probe<F = F> + std::fmt::Display + 'static,
+    <D as DualNum<F>>::Inner: From<F>,
     F: FBits,
     for<'x> &'x D: std::ops::Add<&'x D, Output = D>
         + std::ops::Sub<&'x D, Output = D>
@@ -497,7 +500,10 @@ where
     run_dual::<D, F>(op, aux, &a)
 }
 
-fn case_float<F: FBits>(op: &str, aux: &[&str], operands: &[Vec<&str>]) -> Vec<String> {
+fn case_float<F: FBits>(op: &str, aux: &[&str], operands: &[Vec<&str>]) -> Vec<String>
+where
+    <F as DualNum<F>>::Inner: From<F>,
+{
     let a: Vec<F> = operands.iter().map(|t| <F as Probe>::rd(&mut Toks { v: t, i: 0 })).collect();
     run_dual::<F, F>(op, aux, &a)
 }
